@@ -107,6 +107,8 @@ pub struct World {
     pub verify_expect_next: Option<&'static str>,
     /// log index at which the current handle was opened (C17: what has it done since?)
     pub handle_opened_at: usize,
+    /// measured WAL record size minus payload size of a steering put
+    pub steer_overhead: Option<u64>,
 }
 
 /// true when the library will store this payload whole (no chunk plan)
@@ -206,6 +208,7 @@ impl World {
             verify_expect: None,
             verify_expect_next: None,
             handle_opened_at: 0,
+            steer_overhead: None,
         };
         if !w.plain {
             shim::start(&w.dir, w.fault.clone(), w.fault_seed);
@@ -353,6 +356,14 @@ impl World {
         }
         if std::env::var("MEMSIM_DUMP").is_ok() {
             eprintln!("== op {i} {} ok={ok} skipped={skipped} err={:?}", op.kind_name(), err);
+            if let Some(f) = shim::with_rec(|r| r.fired.clone()) {
+                if !f.is_empty() {
+                    eprintln!("   faults fired so far: {:?}", f);
+                }
+            }
+            if let Some(l) = shim::with_rec(|r| r.log[log_b.min(r.log.len())..].iter().map(|o| format!("{:?}@{}+{}:{}", o.kind, o.off, o.len, o.name)).collect::<Vec<_>>()) {
+                eprintln!("   syscalls: {}", l.join(" "));
+            }
             if let Some(m) = self.mem.as_mut() {
                 if let Ok(st) = m.stats() {
                     eprintln!("   frames={} size={} payload_bytes={} next_id={}", st.frame_count, st.size_bytes, st.payload_bytes, m.next_frame_id());
@@ -554,6 +565,35 @@ impl World {
                 (true, false, None)
             }
             Op::Put(spec) => self.do_put(i, spec, None, log_b),
+            Op::PutSteer { gap, seed } => {
+                if self.mem.is_none() || self.ro {
+                    return (false, true, None);
+                }
+                let Some((head, wal_size)) = self.wal_head() else { return (false, true, None) };
+                let room = wal_size.saturating_sub(head);
+                let overhead = self.steer_overhead.unwrap_or(400);
+                if room < overhead + gap + 16 {
+                    return (false, true, None);
+                }
+                let len = (room - overhead - gap) as usize;
+                let spec = PutSpec { pay: Some(Pay::new(PK::Bin, len, *seed)), ts: Some(7), ..Default::default() };
+                let r = self.do_put(i, &spec, None, log_b);
+                if r.0 {
+                    if let Some((h2, ws2)) = self.wal_head() {
+                        if ws2 == wal_size && h2 > head {
+                            self.steer_overhead = Some((h2 - head).saturating_sub(len as u64));
+                            let left = wal_size - h2;
+                            self.probes_extra(if left < 48 { "steer_landed_within_48_of_end" } else { "steer_landed_elsewhere" }, 1);
+                            if left == 0 {
+                                self.probes_extra("steer_filled_region_exactly", 1);
+                            }
+                        } else {
+                            self.probes_extra("steer_put_checkpointed_or_grew", 1);
+                        }
+                    }
+                }
+                r
+            }
             Op::Update { target, spec } => self.do_put(i, spec, Some(*target), log_b),
             Op::UpdateUri { uri, spec } => match self.resolve_uri(uri) {
                 Some(t) => self.do_put(i, spec, Some(t), log_b),
@@ -620,6 +660,7 @@ impl World {
                 if self.ro {
                     // a dying reader changes nothing
                 }
+                self.model.lose_uncommitted_tracks();
                 self.switch_to_image(img);
                 self.probes.abandon += 1;
                 (true, false, None)
@@ -795,6 +836,7 @@ impl World {
             }
             Op::Search(_) | Op::Timeline(_) | Op::SearchVec { .. } => crate::reads::exec_read(self, i, op),
             Op::AclSearch { .. } => crate::acl::exec_acl(self, i, op),
+            Op::PutCards(_) | Op::CardQuery { .. } | Op::MeshAdd { .. } => crate::cards::exec_cards(self, i, op),
             Op::Wal(_) => (false, true, None),
             Op::Open2 | Op::Doctor2 => {
                 // C17: only meaningful while a writable handle is alive
@@ -912,6 +954,37 @@ impl World {
         if self.log_range_has(self.handle_opened_at, Kind::Rename) { "after-commit".to_string() } else { "before-first-commit".to_string() }
     }
 
+    /// (write head relative to the log region's start, region size), read from the file the way the
+    /// library's own scan does: records from the region start up to the first end-of-log sentinel.
+    pub fn wal_head(&self) -> Option<(u64, u64)> {
+        shim::pause();
+        let bytes = std::fs::read(&self.path);
+        shim::resume();
+        let b = bytes.ok()?;
+        if b.len() < 4096 {
+            return None;
+        }
+        let wal_off = u64::from_le_bytes(b[16..24].try_into().ok()?) as usize;
+        let wal_size = u64::from_le_bytes(b[24..32].try_into().ok()?) as usize;
+        if wal_off != 4096 || wal_off + wal_size > b.len() {
+            return None;
+        }
+        let mut cur = 0usize;
+        while cur + 48 <= wal_size {
+            let h = &b[wal_off + cur..wal_off + cur + 48];
+            let seq = u64::from_le_bytes(h[..8].try_into().ok()?);
+            let len = u32::from_le_bytes(h[8..12].try_into().ok()?) as usize;
+            if seq == 0 && len == 0 {
+                break;
+            }
+            if len == 0 || cur + 48 + len > wal_size {
+                return None;
+            }
+            cur += 48 + len;
+        }
+        Some((cur as u64, wal_size as u64))
+    }
+
     fn forbidden_sidecar_present(&self) -> bool {
         let f = [format!("{FILE}-wal"), format!("{FILE}-shm"), format!("{FILE}-lock"), format!("{FILE}-journal"), format!(".{FILE}.wal"), format!(".{FILE}.shm"), format!(".{FILE}.lock"), format!(".{FILE}.journal")];
         self.planted.iter().any(|p| f.contains(p))
@@ -941,7 +1014,7 @@ impl World {
                     self.verify_expect = self.verify_expect_next.take();
                 }
             }
-            Op::Close | Op::Verify { .. } | Op::Check | Op::OpenRo | Op::Search(_) | Op::Timeline(_) | Op::SearchVec { .. } | Op::AclSearch { .. } => {}
+            Op::Close | Op::Verify { .. } | Op::Check | Op::OpenRo | Op::Search(_) | Op::Timeline(_) | Op::SearchVec { .. } | Op::AclSearch { .. } | Op::CardQuery { .. } => {}
             _ => self.verify_expect = None,
         }
         if matches!(op, Op::Commit | Op::Open | Op::Close | Op::Vacuum | Op::Abandon) {
@@ -1078,7 +1151,7 @@ impl World {
         let chunks: Option<Vec<String>> = payload.as_ref().and_then(|p| self.mem.as_ref().unwrap().preview_chunks(p));
         // C07: for unstructured text the chunk texts concatenate to the normalized text
         if let (Some(ch), Some(p), Some(pay)) = (&chunks, &payload, &spec.pay) {
-            if matches!(pay.kind, PK::LongText | PK::Text) {
+            if matches!(pay.kind, PK::LongText | PK::Text | PK::Unicode) {
                 if let Ok(s) = std::str::from_utf8(p) {
                     if let Some(n) = memvid_core::normalize_text(s, usize::MAX) {
                         if ch.concat() != n.text {
@@ -1188,9 +1261,10 @@ impl World {
                     title: title.clone(),
                     kind: inherit(&spec.kind, o.map(|f| &f.kind)),
                     track: inherit(&spec.track, o.map(|f| &f.track)),
-                    tags: if spec.lib_defaults { None } else if spec.tags.is_empty() { o.and_then(|f| f.tags.clone()).or(Some(vec![])) } else { Some(spec.tags.clone()) },
-                    labels: if spec.lib_defaults { None } else if spec.labels.is_empty() { o.and_then(|f| f.labels.clone()).or(Some(vec![])) } else { Some(spec.labels.clone()) },
+                    tags: if spec.lib_defaults { None } else if spec.tags.is_empty() { match o { Some(f) => f.tags.clone(), None => Some(vec![]) } } else { Some(spec.tags.clone()) },
+                    labels: if spec.lib_defaults { None } else if spec.labels.is_empty() { match o { Some(f) => f.labels.clone(), None => Some(vec![]) } } else { Some(spec.labels.clone()) },
                     acl_allow: None,
+                    queued: spec.instant_index && spec.enable_embedding && target.is_none(),
                     extra: if spec.extra.is_empty() { o.map(|f| f.extra.clone()).unwrap_or(Some(Default::default())) } else { Some(spec.extra.clone()) },
                     whole,
                     ts_candidates: Vec::new(),
@@ -1226,6 +1300,7 @@ impl World {
                             tags: ptags.clone(),
                             labels: plabels.clone(),
                             acl_allow: None,
+                            queued: false,
                             extra: None,
                             whole: true,
                             ts_candidates: Vec::new(),
@@ -1266,5 +1341,6 @@ impl World {
             self.viol(&m.props, m.oracle, m.msg, i);
         }
         crate::reads::check_vec_membership(self, i, at);
+        crate::cards::check_tracks(self, i, at);
     }
 }
